@@ -25,7 +25,7 @@ type C11 struct{}
 func (e *C11) ID() string    { return "C11" }
 func (e *C11) Level() string { return "exploration" }
 func (e *C11) Rule() string {
-	return "each case generates a box tree in the shapes the reader walks: ftyp; moov{uuid-Canon{CNCV,CCTP,CTBO,CMT1-4,THMB,unknown...},mvhd,trak{tkhd,mdia}...}; uuid xpacket; uuid preview{PRVW}; mdat; unknown / free / skip / foreign-uuid boxes between top-level boxes and as children (including 8..15-byte last children), 32- and 64-bit sizes, FullBox headers; or a HEIF-shaped file (ftyp, meta{hdlr,pitm,iinf{infe},iprp{ipco,ipma},iloc}, mdat with the Exif item); a third of the cases then make one non-top-level box overstate or understate its size. The reader is driven through isobmff.Reader over a harness-owned 4 KiB bufio.Reader on a counting reader (stream position = bytes taken from the counting reader minus br.Buffered()), one ReadMetadata per top-level box, with recording callbacks that read everything (io.ReadAll), nothing, or a part, and that in a sixth of the cases report an error afterwards (the position oracle holds regardless of what a callback returns). Oracle (well-formed trees): after ReadFTYP and after every ReadMetadata the position equals the start of the next top-level box; Exif callbacks for CMT1..CMT4 carry first-directory type IFD0/Exif/MakerNote/GPS, the payload's byte order, first-IFD offset and length, and their reader yields exactly the payload after the 8-byte TIFF header; the XMP callback yields exactly the xpacket payload; the preview callback gets the PRVW width/height/size and exactly the JPEG bytes. Malformed trees: the position never passes the end of the top-level box being processed and equals it when no error is returned. Also through DecodeCR3/PreviewCR3 on the well-formed CR3 shapes (preview bytes must equal the generator's). Non-trivial: >=2 top-level boxes after ftyp and >=1 callback or >=3 nested children; distinct = (top-level type sequence, malformation kind, callback behaviour)."
+	return "each case generates a box tree in the shapes the reader walks: ftyp; moov{uuid-Canon{CNCV,CCTP,CTBO,CMT1-4,THMB,unknown...},mvhd,trak{tkhd,mdia}...}; uuid xpacket; uuid preview{PRVW}; mdat; unknown / free / skip / foreign-uuid boxes between top-level boxes and as children (including 8..15-byte last children), 32- and 64-bit sizes, FullBox headers; or a HEIF-shaped file (ftyp, meta{hdlr,pitm,iinf{infe},iprp{ipco,ipma},iloc}, mdat with the Exif item); a third of the cases then make one non-top-level box overstate or understate its size. The reader is driven through isobmff.Reader over a harness-owned 4 KiB bufio.Reader on a counting reader (stream position = bytes taken from the counting reader minus br.Buffered()), one ReadMetadata per top-level box, with recording callbacks that read everything (io.ReadAll, odd-sized reads, io.Copy, Read mixed with the box's own Peek/Discard), nothing, or a part, and that in a sixth of the cases report an error afterwards (the position oracle holds regardless of what a callback returns). Oracle (well-formed trees): after ReadFTYP and after every ReadMetadata the position equals the start of the next top-level box; Exif callbacks for CMT1..CMT4 carry first-directory type IFD0/Exif/MakerNote/GPS, the payload's byte order, first-IFD offset and length, and their reader yields exactly the payload after the 8-byte TIFF header; the XMP callback yields exactly the xpacket payload; the preview callback gets the PRVW width/height/size and exactly the JPEG bytes. Malformed trees: the position never passes the end of the top-level box being processed and equals it when no error is returned. Also through DecodeCR3/PreviewCR3 on the well-formed CR3 shapes (preview bytes must equal the generator's). Non-trivial: >=2 top-level boxes after ftyp and >=1 callback or >=3 nested children; distinct = (top-level type sequence, malformation kind, callback behaviour)."
 }
 func (e *C11) Assumptions() []string {
 	return []string{"top-level boxes are well-formed in every case (the property's malformed variants concern children)", "callback content is asserted for the CR3 callbacks the statement names (CMT1-4, xpacket, PRVW); for the HEIF Exif item only positions are asserted"}
@@ -236,7 +236,7 @@ func (e *C11) Run(c *core.Ctx, idx int) {
 	for _, t := range top {
 		seq += t.Type + ","
 	}
-	cbMode := r.Intn(6)      // 0 ReadAll, 1 nothing, 2 part, 3 odd-sized reads, 4 Read+Discard+Read, 5 Peek+Discard+Read interleaved
+	cbMode := r.Intn(7)      // 0 ReadAll, 1 nothing, 2 part, 3 odd-sized reads, 4 Read+Discard+Read, 5 Peek+Discard+Read interleaved, 6 io.Copy
 	cbFail := r.Chance(1, 6) // the callback reports an error after consuming what its mode says
 	desc := fmt.Sprintf("top=[%s] heif=%v malformed=%v cb=%d cbfail=%v len=%d", seq, heif, malformed, cbMode, cbFail, len(data))
 	errCallback := errors.New("verif: callback rejects the payload")
@@ -270,6 +270,11 @@ func (e *C11) Run(c *core.Ctx, idx int) {
 			buf := make([]byte, r.Range(1, 500))
 			n, _ := io.ReadFull(src, buf)
 			return buf[:n], false
+		case 6:
+			// io.Copy takes the source's WriterTo when it has one
+			var bb bytes.Buffer
+			_, err := io.Copy(struct{ io.Writer }{&bb}, src)
+			return bb.Bytes(), err == nil
 		case 4, 5:
 			// the reader handed to a callback also offers Peek and Discard (the library's own Exif
 			// reader uses them through a type assertion); a consumer may mix them with Read. Bytes
